@@ -82,7 +82,7 @@ var CfgC13 = reg(&MachineCfg{
 
 // ---- DID ----------------------------------------------------------------------------------------
 
-var didGens = []interface{}{"did", 70, "commit", 14, "crash", 3, "restart", 2, "export", 3, "bank", 2, "aol", 2, "sim_did", 5}
+var didGens = []interface{}{"did", 70, "commit", 14, "crash", 3, "restart", 2, "export", 3, "bank", 2, "aol", 2, "sim_did", 5, "read_did", 4}
 
 var CfgC03 = reg(&MachineCfg{
 	Prop: "C03", Gens: didGens,
@@ -122,7 +122,7 @@ var CfgC05 = reg(&MachineCfg{
 			opt.DidGenesis = g.genDidGenesis(app.MakeEncodingConfig().Codec, world.DIDKeys(), true)
 		}
 	},
-	Gens: []interface{}{"did", 66, "commit", 14, "crash", 4, "restart", 4, "export", 6, "bank", 2, "sim_did", 4},
+	Gens: []interface{}{"did", 66, "commit", 14, "crash", 4, "restart", 4, "export", 6, "bank", 2, "sim_did", 4, "read_did", 8},
 	Bias: map[string]int{"right-signers": 94, "exec": 2, "right-proof": 75, "did-deactivate": 25, "aim-tomb": 45, "did-replay": 8, "update-to-empty": 14, "did-mismatch": 12},
 	Rule: "DID machine weighted to deactivation followed by long suffixes of create/update/deactivate on the tombstone with former and fresh keys, restarts, crashes and export/import; oracle = tombstone permanence (read says not found, entry byte-identical, every later message refused) and create-on-existing refused; non-trivial = a deactivation followed by >=3 attempts on the tombstone incl. one with a harness-made proof and a restart/export afterwards",
 	NonTrivial: func(w *world.World) bool {
@@ -235,8 +235,8 @@ var CfgC08 = reg(&MachineCfg{
 var CfgC15 = reg(&MachineCfg{
 	Prop: "C15", Also: agreement,
 	Gens: []interface{}{"aol", 32, "did", 20, "pnft", 24, "mixed", 10, "commit", 8, "burn", 4, "bank", 2, "gov", 2},
-	Bias: map[string]int{"right-signers": 85, "exec": 0, "multi": 35, "fee-payer": 50, "right-proof": 80, "tamper": 6, "group": 8, "tip": 10, "fee-granter": 12},
-	Rule: "transactions of 1-4 custom-module messages (any mix, succeeding or failing at any position), fees in {0, small, two denoms, more than the balance}, explicit fee payers, add-record with/without a named fee payer; oracle = per-DeliverTx balance/supply diff and all-or-nothing on the three custom stores; non-trivial = a multi-message tx that failed after the ante, or an add-record with a named fee payer",
+	Bias: map[string]int{"right-signers": 85, "exec": 0, "multi": 35, "fee-payer": 50, "right-proof": 80, "tamper": 6, "group": 8, "tip": 10, "fee-granter": 12, "fee-magnitude": 5},
+	Rule: "transactions of 1-4 custom-module messages (any mix, succeeding or failing at any position), fees in {0, small, two denoms, every order of magnitude up to the balance, more than the balance}, explicit fee payers, add-record with/without a named fee payer; oracle = per-DeliverTx balance/supply diff and all-or-nothing on the three custom stores; non-trivial = a multi-message tx that failed after the ante, or an add-record with a named fee payer",
 	NonTrivial: func(w *world.World) bool {
 		return lab(w, "c15 multi-message tx failed after ante")+lab(w, "c15 add-record with named fee payer") > 0
 	},
@@ -255,6 +255,9 @@ var CfgC07 = reg(&MachineCfg{
 		// registered invariant at the start of EndBlock, i.e. BEFORE the burn)
 		if g.chance("inv-check-period", 45) {
 			opt.Node = map[string]interface{}{"inv-check-period": uint(pick(g, "period", []int{1, 1, 2, 3}))}
+		}
+		if g.chance("bank-setup", 35) {
+			opt.Bank = g.genBankSetup()
 		}
 	},
 	Gens:       []interface{}{"burn", 44, "gov", 14, "commit", 30, "bank", 8, "aol", 3, "pnft", 3, "crash", 2, "restart", 2},
@@ -318,8 +321,8 @@ var CfgC10 = reg(&MachineCfg{
 			opt.PnftGenesis = g.genPnftGenesis(app.MakeEncodingConfig().Codec, true)
 		}
 	},
-	Gens:       withGens("commit", 14, "crash", 5, "crash_redeliver", 6, "crash_endblock", 3, "restart", 2, "export", 1),
-	Bias:       map[string]int{"right-signers": 92, "exec": 3, "right-proof": 80, "group": 8, "did-burst": 10},
+	Gens:       withGens("commit", 14, "crash", 5, "crash_redeliver", 6, "crash_endblock", 3, "restart", 2, "export", 1, "gov", 6),
+	Bias:       map[string]int{"right-signers": 92, "exec": 3, "right-proof": 80, "group": 8, "did-burst": 10, "gov-consensus-params": 60},
 	Rule:       "histories with stop points after Commit, after BeginBlock, after any prefix of a block's txs and after EndBlock-before-Commit: the instance is abandoned and a new application is opened on the same database; oracle = height, app hash and every mounted store equal the committed snapshot, the re-delivered block reproduces its results, and every later block hash equals a twin that never stopped; non-trivial = a crash inside a block after >=1 delivered tx",
 	NonTrivial: func(w *world.World) bool { return lab(w, "crash after delivered txs") > 0 },
 	Step:       burnStep,
@@ -331,6 +334,24 @@ func burnStep(g *G, kind string) *world.Step {
 	}
 	return &world.Step{Kind: "tx", Tx: g.genBurnTx()}
 }
+
+// CfgC14 is the on-chain half of C14: signatures made for one transaction content, attached to
+// another, presented to a node that may already have checked the genuine transaction.
+var CfgC14 = reg(&MachineCfg{
+	Prop: "C14", Also: agreement,
+	Gens: []interface{}{"aol", 34, "did", 14, "pnft", 18, "mixed", 8, "authz", 6, "commit", 14, "bank", 2, "restart", 2},
+	Bias: map[string]int{"right-signers": 94, "exec": 10, "multi": 25, "right-proof": 90, "tamper": 45, "prime-checktx": 60, "group": 6},
+	Rule: "chain half of C14: signed transactions of custom-module messages whose content (one address, one field, or the structure of one message) is replaced after signing with the signatures kept, in direct and legacy amino JSON mode, bare / inside authz exec / inside a group proposal, presented to a node that in 60% of the cases has already passed the genuine transaction through CheckTx; oracle = such a transaction is never accepted, and the stores agree with the model; non-trivial = >=2 substituted transactions delivered, one of them after the genuine one passed CheckTx",
+	NonTrivial: func(w *world.World) bool {
+		return lab(w, "tx content replaced after signing") >= 2 && lab(w, "genuine tx passed CheckTx before its content was replaced") > 0
+	},
+	Step: func(g *G, kind string) *world.Step {
+		if kind != "mixed" {
+			return nil
+		}
+		return &world.Step{Kind: "tx", Tx: g.genMixedTx()}
+	},
+})
 
 var CfgC16 = reg(&MachineCfg{
 	Prop: "C16",
